@@ -313,6 +313,85 @@ private:
   std::atomic<uint64_t> gen{0};
 };
 
+// std::counting_semaphore / std::binary_semaphore and std::latch for cooperative tasks (same scheme as Mutex and
+// CondVar: blocking in the scheduler, simulated time for the timed forms, TSan release/acquire edges)
+template <std::ptrdiff_t Least = 0x7FFFFFFF>
+class Semaphore {
+public:
+  explicit Semaphore(std::ptrdiff_t desired) : count(desired) {}
+  Semaphore(const Semaphore&) = delete;
+  static constexpr std::ptrdiff_t max() noexcept { return Least; }
+  void release(std::ptrdiff_t n = 1) {
+    vpar::yield_point("semaphore.release");
+    if (__tsan_release) __tsan_release(this);
+    count += n;
+    vpar::wake_all(this);
+  }
+  void acquire() {
+    vpar::yield_point("semaphore.acquire");
+    while (count <= 0) vpar::wait_on(this, UINT64_MAX);
+    take();
+  }
+  bool try_acquire() noexcept(false) {
+    vpar::yield_point("semaphore.try_acquire");
+    if (count <= 0) return false;
+    take();
+    return true;
+  }
+  template <typename Rep, typename Per>
+  bool try_acquire_for(const std::chrono::duration<Rep, Per>& d) {
+    vpar::yield_point("semaphore.try_acquire_for");
+    auto us = std::chrono::duration_cast<std::chrono::microseconds>(d).count();
+    uint64_t deadline = vpar::now_us() + (us <= 0 ? 0 : (uint64_t)us);
+    while (count <= 0) {
+      uint64_t now = vpar::now_us();
+      if (now >= deadline) return false;
+      vpar::wait_on(this, deadline - now);
+    }
+    take();
+    return true;
+  }
+  template <typename C, typename D>
+  bool try_acquire_until(const std::chrono::time_point<C, D>& tp) {
+    return try_acquire_for(tp - C::now());
+  }
+
+private:
+  void take() {
+    count -= 1;
+    if (__tsan_acquire) __tsan_acquire(this);
+  }
+  std::atomic<std::ptrdiff_t> count;
+};
+
+class Latch {
+public:
+  explicit Latch(std::ptrdiff_t expected) : count(expected) {}
+  Latch(const Latch&) = delete;
+  void count_down(std::ptrdiff_t n = 1) {
+    vpar::yield_point("latch.count_down");
+    if (__tsan_release) __tsan_release(this);
+    count -= n;
+    if (count <= 0) vpar::wake_all(this);
+  }
+  bool try_wait() const noexcept(false) {
+    vpar::yield_point("latch.try_wait");
+    return count <= 0;
+  }
+  void wait() const {
+    vpar::yield_point("latch.wait");
+    while (count > 0) vpar::wait_on(this, UINT64_MAX);
+    if (__tsan_acquire) __tsan_acquire(const_cast<Latch*>(this));
+  }
+  void arrive_and_wait(std::ptrdiff_t n = 1) {
+    count_down(n);
+    wait();
+  }
+
+private:
+  std::atomic<std::ptrdiff_t> count;
+};
+
 // std::this_thread inside Tools.hh: sleeping is simulated time, yield() a scheduling point
 namespace this_thread_shim {
 template <typename Rep, typename Per>
@@ -345,6 +424,10 @@ using vsim_thread = ::vshim::Thread;
 using vsim_jthread = ::vshim::JThread;
 using vsim_mutex = ::vshim::Mutex;
 using vsim_condition_variable = ::vshim::CondVar;
+template <std::ptrdiff_t Least = 0x7FFFFFFF>
+using vsim_counting_semaphore = ::vshim::Semaphore<Least>;
+using vsim_binary_semaphore = ::vshim::Semaphore<1>;
+using vsim_latch = ::vshim::Latch;
 namespace vsim_this_thread = ::vshim::this_thread_shim;
 } // namespace std
 namespace phosg {
@@ -357,6 +440,9 @@ inline int vsim_usleep(uint64_t us) { return ::vshim::vs_usleep(us); }
 #define jthread vsim_jthread
 #define mutex vsim_mutex
 #define condition_variable vsim_condition_variable
+#define counting_semaphore vsim_counting_semaphore
+#define binary_semaphore vsim_binary_semaphore
+#define latch vsim_latch
 #define this_thread vsim_this_thread
 #define usleep vsim_usleep
 #define now vsim_now
@@ -366,6 +452,9 @@ inline int vsim_usleep(uint64_t us) { return ::vshim::vs_usleep(us); }
 #undef jthread
 #undef mutex
 #undef condition_variable
+#undef counting_semaphore
+#undef binary_semaphore
+#undef latch
 #undef this_thread
 #undef usleep
 #undef now
